@@ -4,6 +4,7 @@ let () =
     | "--thr" :: v :: r -> D_static.thr := int_of_string v; opts r
     | "--max-n" :: v :: r -> D_spec.max_n := int_of_string v; opts r
     | "--bound" :: r -> D_spec.with_bound := true; opts r
+    | "--cli-max-n" :: v :: r -> D_cli.max_n := int_of_string v; opts r
     | "--equiv-max-n" :: v :: r -> D_equiv.max_n := int_of_string v; opts r
     | _ :: r -> opts r
     | [] -> ()
@@ -16,6 +17,7 @@ let () =
   | _ :: "encoders" :: path :: _ -> D_encoders.run path
   | _ :: "encspec" :: path :: _ -> D_encoders.run_spec path
   | _ :: "equiv" :: path :: _ -> D_equiv.run path
+  | _ :: "cli" :: path :: _ -> D_cli.run path
   | _ :: "equiv-spec" :: path :: _ -> D_equiv.run_spec path
   | _ :: "readers" :: path :: _ -> D_readers.run_readers path
   | _ :: "writers" :: path :: _ -> D_readers.run_writers path
